@@ -4,8 +4,7 @@
   actors/miner/src/{partition_state,expiration_queue,bitfield_queue}.rs, the Level-1 specification
   `BA.Sector.Spec`, and the model `BA.Sector.Alloc` of `State::allocate_sector_numbers`.
 -/
-import BA.Lemmas.Sector.Refine
-import BA.Lemmas.Sector.Pop
+import BA.Lemmas.Sector.FullStep
 import BA.Model.Sector.Alloc
 
 namespace BA.Sector
@@ -71,51 +70,68 @@ theorem status_refines_level1_partial (env : Env) (p p' : Partition) (op : Op) (
 
 /-! ### memo = recomputed value (Level 2 refines Level 1 on the summaries) -/
 
-/-- what is required of a call for the memo theorem -/
-def MemoOp (tbl : Table) (op : Op) : Prop := OpWF op ∧ OpWF2 tbl op ∧ TierA op
+/-- what is required of a call for the memo theorem: bitfield arguments, table infos of distinct
+    sectors for add_sectors, and the call is one of the nine methods of `TierB` -/
+def MemoOp (tbl : Table) (op : Op) : Prop := OpWF op ∧ OpWF2 tbl op ∧ TierB op
 
 theorem invs_run {env : Env} (hw : TableWF env.tbl) :
-    ∀ (ops : List Op) (p : Partition), SetInv p → MemoInv env.tbl p →
-      (∀ op ∈ ops, MemoOp env.tbl op) →
-      SetInv (run env p ops) ∧ MemoInv env.tbl (run env p ops) := by
+    ∀ (ops : List Op) (p : Partition), FullInv env.tbl p →
+      (∀ op ∈ ops, MemoOp env.tbl op) → FullInv env.tbl (run env p ops) := by
   intro ops
   induction ops with
-  | nil => intro p hs hm _; exact ⟨hs, hm⟩
+  | nil => intro p h _; exact h
   | cons op rest ih =>
-    intro p hs hm hops
+    intro p h hops
     obtain ⟨h1, h2, h3⟩ := hops op (by simp)
     simp only [run]
-    apply ih _ (setInv_step hs h1) _ (fun o ho => hops o (by simp [ho]))
+    apply ih _ _ (fun o ho => hops o (by simp [ho]))
     unfold step
-    cases h : stepE env p op with
-    | error e => exact hm
-    | ok r => obtain ⟨p', ret⟩ := r; exact memoInv_stepE hw hs hm h1 h2 h3 h
+    cases hs : stepE env p op with
+    | error e => exact h
+    | ok r => obtain ⟨p', ret⟩ := r; exact fullInv_stepE hw h h1 h2 h3 hs
 
 /-- **memo_eq_recompute_partial.** After every sequence of add_sectors (proven or not),
     record_faults, declare_faults_recovered, recover_faults, activate_unproven, record_missed_post,
-    record_skipped_faults and pop_early_terminations (arbitrary sector sets, fault-expiration epochs
-    and quantisation; the infos handed to add_sectors are the table's infos of distinct sectors),
-    each of the four concrete power memos of the partition — `live_power`, `unproven_power`,
-    `faulty_power`, `recovering_power` — and `active_power()` equals the Level-1 value recomputed
-    from the individual sectors' statuses and infos at the abstracted state.
+    record_skipped_faults, pop_expired_sectors and pop_early_terminations (arbitrary sector sets,
+    epochs and quantisation; the infos handed to add_sectors are the table's infos of distinct
+    sectors), EVERY memo of the partition equals the value recomputed from the individual sectors:
+    * the four power memos `live_power`, `unproven_power`, `faulty_power`, `recovering_power` and
+      `active_power()` equal the Level-1 sums over the sectors' statuses at the abstracted state;
+    * the expiration queue's keys are strictly ascending, no sector is scheduled in two entries or
+      both on-time and early, every scheduled sector is live, early sectors are faulty, and per
+      epoch: `on_time_pledge` = Σ pledge of the on-time sectors, `active_power` = Σ power of the
+      on-time sectors that are not faulty, `faulty_power` = Σ power of the faulty on-time sectors
+      and of the early sectors, `fee_deduction` = Σ daily fee of all sectors of the entry.
 
-    PARTIAL — not yet proved, validated only by the differential correspondence and the
-    recomputation oracle on the real code: (1) the operations terminate_sectors,
-    pop_expired_sectors, reschedule_expirations, replace_sectors; (2) the per-epoch ExpirationSet
-    memos (on-time pledge, active/faulty power, fee deduction, on-time/early sets) — for the listed
-    operations only "every entry's bitfields are duplicate-free" and "the returned power is the
-    power of the requested sectors" are proved about the queue; (3) Deadline-level counters. -/
+    PARTIAL — not yet proved (validated only by the differential correspondence and the
+    recomputation oracle on the real code): the operations terminate_sectors,
+    reschedule_expirations and replace_sectors; Deadline-level counters. -/
 theorem memo_eq_recompute_partial (env : Env) (ops : List Op) (hw : TableWF env.tbl)
     (hops : ∀ op ∈ ops, MemoOp env.tbl op) :
     let p := run env Partition.new ops
-    p.livePower = Spec.livePower env.tbl p.abs ∧
-    p.unprovenPower = Spec.unprovenPower env.tbl p.abs ∧
-    p.faultyPower = Spec.faultyPower env.tbl p.abs ∧
-    p.recoveringPower = Spec.recoveringPower env.tbl p.abs ∧
-    p.activePower = Spec.activePower env.tbl p.abs := by
+    (p.livePower = Spec.livePower env.tbl p.abs ∧
+     p.unprovenPower = Spec.unprovenPower env.tbl p.abs ∧
+     p.faultyPower = Spec.faultyPower env.tbl p.abs ∧
+     p.recoveringPower = Spec.recoveringPower env.tbl p.abs ∧
+     p.activePower = Spec.activePower env.tbl p.abs) ∧
+    Sorted p.expirations ∧
+    (∀ e1 es1 e2 es2, (e1, es1) ∈ p.expirations → (e2, es2) ∈ p.expirations →
+      ∀ x, x ∈ es1.onTime ++ es1.early → x ∈ es2.onTime ++ es2.early → e1 = e2) ∧
+    (∀ e es, (e, es) ∈ p.expirations →
+      (es.onTime ++ es.early).Nodup ∧
+      (∀ x ∈ es.onTime ++ es.early, x ∈ p.sectors ∧ x ∉ p.terminated) ∧
+      (∀ x ∈ es.early, x ∈ p.faults) ∧
+      es.pledge = sumBy (tw env.tbl (·.pledge)) es.onTime ∧
+      es.active = powOf env.tbl (diff es.onTime p.faults) ∧
+      es.faulty = powOf env.tbl (inter es.onTime p.faults ++ es.early) ∧
+      es.fee = sumBy (tw env.tbl (·.fee)) (es.onTime ++ es.early)) := by
   intro p
-  obtain ⟨hs, hm⟩ := invs_run hw ops Partition.new setInv_new (memoInv_new _) hops
-  exact memo_eq_spec hs hm
+  have h := invs_run hw ops Partition.new (fullInv_new _) hops
+  refine ⟨memo_eq_spec h.sets h.memo, h.queue.sorted, h.queue.disj, ?_⟩
+  intro e es hm
+  have he := h.queue.entry e es hm
+  exact ⟨he.nodup, fun x hx => mem_diff.mp (he.live x hx), he.earlyFaulty, he.pledge, he.active,
+    he.faulty, he.fee⟩
 
 /-- The expiration-queue algorithms account for every requested sector exactly once or fail:
     `reschedule_as_faults` and `reschedule_recovered` return exactly the power of the sectors they
@@ -150,12 +166,45 @@ theorem validate_state_never_fires_partial (tbl : Table) (p : Partition) (hn : T
     (hs : SetInv p) (hm : MemoInv tbl p) : p.validate = .ok () :=
   validate_of_inv hn hs hm
 
-/-- in particular in every state reached by the operations of `memo_eq_recompute_partial` -/
+/-- pledge and fee in the table are non-negative as well -/
+def TableNonneg2 (tbl : Table) : Prop :=
+  ∀ n i, alookup n tbl = some i → 0 ≤ i.raw ∧ 0 ≤ i.qa ∧ 0 ≤ i.pledge ∧ 0 ≤ i.fee
+
+theorem tw_nonneg {tbl : Table} (w : SectorInfo → Int)
+    (h : ∀ n i, alookup n tbl = some i → 0 ≤ w i) (n : Nat) : 0 ≤ tw tbl w n := by
+  unfold tw; cases ha : alookup n tbl with
+  | none => simp
+  | some i => exact h n i ha
+
+/-- `ExpirationSet::validate_state` is implied by the per-epoch memo invariant -/
+theorem expset_validate_of_entryOK {tbl : Table} {F L : NatSet} {es : ExpSet} (hn : TableNonneg2 tbl)
+    (h : EntryOK tbl F L es) : es.validate = .ok () := by
+  have n1 := tw_nonneg (tbl := tbl) (·.raw) (fun n i ha => (hn n i ha).1)
+  have n2 := tw_nonneg (tbl := tbl) (·.qa) (fun n i ha => (hn n i ha).2.1)
+  have n3 := tw_nonneg (tbl := tbl) (·.pledge) (fun n i ha => (hn n i ha).2.2.1)
+  have n4 := tw_nonneg (tbl := tbl) (·.fee) (fun n i ha => (hn n i ha).2.2.2)
+  have p1 : 0 ≤ es.pledge := by rw [h.pledge]; exact sumBy_nonneg _ _ (fun x _ => n3 x)
+  have p2 : 0 ≤ es.fee := by rw [h.fee]; exact sumBy_nonneg _ _ (fun x _ => n4 x)
+  have p3 : 0 ≤ es.active.raw := by rw [h.active]; exact sumBy_nonneg _ _ (fun x _ => n1 x)
+  have p4 : 0 ≤ es.active.qa := by rw [h.active]; exact sumBy_nonneg _ _ (fun x _ => n2 x)
+  have p5 : 0 ≤ es.faulty.raw := by rw [h.faulty]; exact sumBy_nonneg _ _ (fun x _ => n1 x)
+  have p6 : 0 ≤ es.faulty.qa := by rw [h.faulty]; exact sumBy_nonneg _ _ (fun x _ => n2 x)
+  unfold ExpSet.validate
+  simp only [guard_ok]
+  exact ⟨by omega, by omega, by omega, by omega, by omega, by omega, trivial⟩
+
+/-- **validate_state_never_fires_reachable_partial.** In every state reached by the operations of
+    `memo_eq_recompute_partial` (non-negative powers, pledges and fees in the table) both
+    `Partition::validate_state` and `ExpirationSet::validate_state` of every queue entry pass.
+    PARTIAL only in the set of operations (terminate_sectors, reschedule_expirations,
+    replace_sectors are not covered). -/
 theorem validate_state_holds_reachable (env : Env) (ops : List Op) (hw : TableWF env.tbl)
-    (hn : TableNonneg env.tbl) (hops : ∀ op ∈ ops, MemoOp env.tbl op) :
-    (run env Partition.new ops).validate = .ok () := by
-  obtain ⟨hs, hm⟩ := invs_run hw ops Partition.new setInv_new (memoInv_new _) hops
-  exact validate_of_inv hn hs hm
+    (hn : TableNonneg2 env.tbl) (hops : ∀ op ∈ ops, MemoOp env.tbl op) :
+    (run env Partition.new ops).validate = .ok () ∧
+    ∀ e es, (e, es) ∈ (run env Partition.new ops).expirations → es.validate = .ok () := by
+  have h := invs_run hw ops Partition.new (fullInv_new _) hops
+  exact ⟨validate_of_inv (fun n i ha => ⟨(hn n i ha).1, (hn n i ha).2.1⟩) h.sets h.memo,
+    fun e es hm => expset_validate_of_entryOK hn (h.queue.entry e es hm)⟩
 
 /-! ### every sector number is allocated at most once -/
 
@@ -216,13 +265,13 @@ def exEnv : Env := { tbl := exTbl, qs := { unit := 10, offset := 3 } }
 def exInfos : List SectorInfo := exTbl.map (·.2)
 def exOps : List Op :=
   [.addSectors false exInfos, .recordFaults [1, 3] 40, .activateUnproven, .declareFaultsRecovered [1],
-   .recoverFaults, .recordMissedPost 60]
+   .recoverFaults, .recordMissedPost 60, .popExpiredSectors 70]
 
 example : ∀ op ∈ exOps, MemoOp exEnv.tbl op := by
   intro op h
   simp only [exOps, List.mem_cons, List.not_mem_nil, or_false] at h
-  rcases h with rfl | rfl | rfl | rfl | rfl | rfl <;>
-    simp [MemoOp, OpWF, OpWF2, TierA, exInfos, exTbl, exEnv, nums, alookup]
+  rcases h with rfl | rfl | rfl | rfl | rfl | rfl | rfl <;>
+    simp [MemoOp, OpWF, OpWF2, TierA, TierB, exInfos, exTbl, exEnv, nums, alookup]
 example : TableWF exTbl := by
   intro n i h
   simp only [exTbl, alookup] at h
@@ -236,7 +285,9 @@ example : TableWF exTbl := by
 example : (run exEnv Partition.new (exOps.take 5)).faults = [3] := by decide
 example : (run exEnv Partition.new (exOps.take 5)).livePower = ⟨96, 392⟩ := by decide
 example : (run exEnv Partition.new (exOps.take 5)).activePower = ⟨64, 72⟩ := by decide
-example : (run exEnv Partition.new exOps).faultyPower = ⟨96, 392⟩ := by decide
+example : (run exEnv Partition.new (exOps.take 6)).faultyPower = ⟨96, 392⟩ := by decide
+example : (run exEnv Partition.new exOps).terminated = [1, 2, 3] := by decide
+example : (run exEnv Partition.new exOps).livePower = ⟨0, 0⟩ := by decide
 example : Alloc.allocate [1, 2] [3] .denyCollisions = .ok [1, 2, 3] := by rfl
 example : Alloc.allocate [1, 2] [2, 3] .denyCollisions = .error .illegalArgument := by rfl
 
